@@ -727,3 +727,127 @@ def t_dep_instancecheck():
         I.require(t == z3.And(inb, chk), "instancecheck_is_bound_and_condition")
 
     return w, thunk, {"clause": "instancecheck"}
+
+
+# --------------------------------------------------------------------------------------------------
+# C14: types passed as arguments
+
+from .universe import TYPING_ALIAS  # noqa: E402
+
+MKTYPE = z3.Function("type_alias_of", TyS, TyS)  # type[X]
+ANYT = z3.Const("typing_Any", TyS)
+typeof = z3.Function("typeof", z3.DeclareSort("Val"), TyS)
+ValS = typeof.domain(0)
+val_has_origin = z3.Function("val_has_origin_attr", ValS, z3.BoolSort())
+
+
+def mktype_axioms():
+    x = z3.Const("x", TyS)
+    return [
+        z3.ForAll([x], z3.And(kind(MKTYPE(x)) == K["Alias"], base(MKTYPE(x)) == TYPE, nargs(MKTYPE(x)) == 1, arg(MKTYPE(x), 0) == x, z3.Not(TYPING_ALIAS(MKTYPE(x)))), patterns=[MKTYPE(x)]),
+        kind(ANYT) == K["Class"],
+        ANYT != OBJECT,
+    ]
+
+
+def t_subtler_type():
+    """utils.subtler_type: type[obj] for a generic alias, a typing union or a class; type[object] for typing.Any;
+    type(obj) for every other value (so ordinary arguments keep dispatching on their class)."""
+    from pyvc.interp import Builtin, SymObj
+    from pyvc.world import ModuleV, PyClassToken
+
+    class ValV(ZV):
+        def __init__(self, t, k="val"):
+            super().__init__(t, "val")
+
+        def py_hasattr(self, I, name):
+            if name == "__origin__":
+                return val_has_origin(self.t)
+            raise OutOfSubset(f"hasattr(value, {name})")
+
+        def py_isinstance(self, I, cls):
+            if isinstance(cls, PyClassToken) and cls.name == "type":
+                return False
+            return NotImplemented
+
+    class W(MroWorld):
+        def __init__(self):
+            super().__init__(unfold=0, sc_unfold=0)
+            self.axiom(lambda I: mktype_axioms())
+            self.inline("utils:subtler_type", "utils:GenericAliasMC.__instancecheck__")
+            self.set_global("utils", "typing", ModuleV("typing", {"Any": TyV(ANYT)}))
+            self.set_global("utils", "UnionTypes", "UNIONTYPES")
+
+        def isinstance_(self, I, x, cls):
+            from pyvc.interp import RepoClass
+
+            if isinstance(cls, RepoClass) and cls.qual == "utils:GenericAlias":
+                return I.truth(I.call_repo("utils:GenericAliasMC.__instancecheck__", [cls, x], {}))
+            if cls == "UNIONTYPES":
+                return kind(x.t) == K["PyUnion"] if isinstance(x, TyV) else False
+            return super().isinstance_(I, x, cls)
+
+        def class_getitem(self, I, cls, key):
+            if isinstance(cls, PyClassToken) and cls.name == "type":
+                t = self.as_ty(I, key)
+                return TyV(MKTYPE(t.t))
+            raise OutOfSubset("class_getitem")
+
+        def type_of(self, I, x):
+            if isinstance(x, ValV):
+                return TyV(typeof(x.t))
+            return super().type_of(I, x)
+
+    def build_for(which):
+        def build():
+            w = W()
+
+            def thunk(I):
+                if which == "type_object":
+                    obj = TyV(z3.Const("t1", TyS))
+                    I.assume(obj.t != ANYT)
+                    want = MKTYPE(obj.t)
+                elif which == "any":
+                    obj = TyV(ANYT)
+                    want = MKTYPE(OBJECT)
+                else:
+                    obj = ValV(z3.Const("v", ValS))
+                    I.assume(z3.Not(val_has_origin(obj.t)))  # ordinary values carry no __origin__ attribute
+                    want = typeof(obj.t)
+                ensure_return(I, lambda: I.call_repo("utils:subtler_type", [obj], {}), lambda I, r: isinstance(r, TyV) and r.t == want, f"ensures.{which}")
+
+            return w, thunk, {"clause": f"subtler_type[{which}]", "timeout_ms": TIMEOUT_MS, "fail_fast": True}
+
+        return build
+
+    return {k: build_for(k) for k in ("type_object", "any", "value")}
+
+
+def t_type_alias_rows():
+    """Lemma over the contracts alias_covariant (C13), alias_argwise / alias_origin / class_fragment (C12) and
+    Order.merge: type[X] <= type[T] iff X <= T; the order of type[A] and type[B] is the order of A and B; type[A] is
+    LESS than object and than bare type's normal form type[object] when A is a proper subtype of object."""
+    w = TypesWorld()
+
+    def thunk(I):
+        I.assume(mktype_axioms())
+        X, T_ = z3.Consts("t1 t2", TyS)
+        a, b = MKTYPE(X), MKTYPE(T_)
+        i = z3.Int("i")
+        x, y = z3.Consts("x y", TyS)
+        # alias_covariant
+        I.assume(z3.ForAll([x, y], z3.Implies(z3.And(kind(x) == K["Alias"], kind(y) == K["Alias"], x != y), SC(x, y) == z3.And(sub(base(x), base(y)), nargs(x) == nargs(y), z3.ForAll([i], z3.Implies(z3.And(0 <= i, i < nargs(x)), SC(arg(x, i), arg(y, i)))))), patterns=[SC(x, y)]))
+        I.assume(z3.ForAll([x], SC(x, x), patterns=[SC(x, x)]))
+        I.assume(X != T_)
+        I.require(a != b, "lemma.type_alias_injective")
+        I.require(SC(a, b) == SC(X, T_), "lemma.type_of_X_is_subtype_of_type_of_T_iff_X_subtype_of_T")
+        # alias_argwise with one argument: merge of a singleton is the element
+        flags = {nm: TO(X, T_) == ORDER[nm] for nm in ORDER}
+        I.assume(z3.ForAll([x, y], z3.Implies(z3.And(kind(x) == K["Alias"], kind(y) == K["Alias"], x != y, base(x) == base(y), nargs(x) == 1, nargs(y) == 1), TO(x, y) == merge_spec({nm: TO(arg(x, 0), arg(y, 0)) == ORDER[nm] for nm in ORDER})), patterns=[TO(x, y)]))
+        I.require(TO(a, b) == TO(X, T_), "lemma.order_of_type_aliases_follows_the_order_of_their_arguments")
+        # alias vs plain class: the order of the origin `type` against the class, SAME turned into LESS
+        I.assume(z3.ForAll([x, y], z3.Implies(z3.And(kind(x) == K["Alias"], kind(y) == K["Class"]), TO(x, y) == z3.If(TO(base(x), y) == SAME, LESS, TO(base(x), y))), patterns=[TO(x, y)]))
+        I.assume(z3.And(TO(TYPE, OBJECT) == LESS))  # class fragment: type is a proper subclass of object
+        I.require(TO(a, OBJECT) == LESS, "lemma.type_alias_is_more_specific_than_object")
+
+    return w, thunk, {"uses_lemmas": ["subclasscheck/alias_covariant", "typeorder/alias_argwise", "typeorder/alias_origin", "typeorder/class_fragment", "Order.merge"], "timeout_ms": 10000}
